@@ -126,7 +126,7 @@ impl SDJWTHolder {
         } else {
             let mut sd_jwt_json = self
                 .sd_jwt_json
-                .take()
+                .clone()
                 .ok_or(Error::InvalidState("Cannot take SDJWTJson".to_string()))?;
             sd_jwt_json.disclosures = self.hs_disclosures.clone();
             if !self.serialized_key_binding_jwt.is_empty() {
